@@ -290,10 +290,15 @@ func VerifC03Proxy() {
 	status := rt.Int("status", 200, 599)
 	body := rt.String("body", rt.Param("bodyCap", 2))
 	trailer := http.Header{}
+	wantTrailer := http.Header{}
 	nt := rt.Int("ntrailers", 0, 2)
+	announced := rt.Bool("trailersAnnounced")
 	tnames := []string{"X-Checksum", "Grpc-Status"}
 	for i := 0; i < nt; i++ {
-		trailer[tnames[i]] = []string{rt.String("t"+rt.Itoa(i), 1)}
+		wantTrailer[tnames[i]] = []string{rt.String("t"+rt.Itoa(i), 1)}
+		if announced {
+			trailer[tnames[i]] = wantTrailer[tnames[i]]
+		}
 	}
 	wantHdr := http.Header{}
 	for k, v := range hdr {
@@ -312,8 +317,13 @@ func VerifC03Proxy() {
 	if len(ids) != 1 {
 		return
 	}
-	resp := &http.Response{StatusCode: status, Proto: "HTTP/1.1", ProtoMajor: 1, ProtoMinor: 1, Header: hdr,
-		Body: vBody{strings.NewReader(body)}, ContentLength: -1, Trailer: trailer}
+	resp := &http.Response{StatusCode: status, Proto: "HTTP/1.1", ProtoMajor: 1, ProtoMinor: 1, Header: hdr, ContentLength: -1, Trailer: trailer}
+	// unannounced trailers only appear once the body has been written
+	resp.Body = &vEOFBody{r: strings.NewReader(body), atEOF: func() {
+		for k, v := range wantTrailer {
+			trailer[k] = v
+		}
+	}}
 	vPost(p, ids[0], resp)
 	<-done
 	rt.Assert(w.Code == status, "C03.status-unchanged")
@@ -335,9 +345,17 @@ func VerifC03Proxy() {
 		_, sent := hdr[k]
 		rt.Assert(sent, "C03.no-header-is-invented")
 	}
-	for k, v := range trailer {
+	for k, v := range wantTrailer {
 		got := w.H[http.TrailerPrefix+k]
 		rt.Assert(len(got) == 1 && got[0] == v[0], "C03.trailers-are-delivered-as-trailers")
+	}
+	if nt > 0 && !announced {
+		rt.Cover("C03.unannounced-trailers")
+		// net/http's server only transmits trailers that were not declared before the
+		// header block when the response is chunked (a handler gets that by setting
+		// Transfer-Encoding itself or by flushing); otherwise it computes a
+		// Content-Length for short bodies and the trailers are dropped
+		rt.Assert(strings.EqualFold(w.H.Get("Transfer-Encoding"), "chunked") || w.Flushed > 0, "C03.unannounced-trailers-are-deliverable")
 	}
 	rt.Cover("C03.client-response-checked")
 	_ = context.Background
@@ -430,3 +448,19 @@ func VerifC01Disconnect() {
 	_ = doneA
 	_ = uploadDone
 }
+
+type vEOFBody struct {
+	r     *strings.Reader
+	atEOF func()
+	done  bool
+}
+
+func (b *vEOFBody) Read(p []byte) (int, error) {
+	n, err := b.r.Read(p)
+	if err != nil && !b.done {
+		b.done = true
+		b.atEOF()
+	}
+	return n, err
+}
+func (b *vEOFBody) Close() error { return nil }
